@@ -214,6 +214,12 @@ AlphaPSeg(z) == SetToSeq({Slider(<<t1, p1, "P", a, b, c>>) : t1 \in {"B", "L"}, 
                 \o SetToSeq({Slider(<<"P", a, b, "P", c, d, e>>) : a \in {"A", "Cn"}, b \in {"Bc", "Cn"}, c \in {"A", "Cn"},
                                                                     d \in {"O", "Bc"}, e \in {"A", "Bc", "Cn"}})
 
+\* perfect-curve segments through far-away points (G1, G2 collinear with O; A and Cn clearly not)
+AlphaPBig(z) == SetToSeq({Slider(<<"P", a, b>>) : a \in {"G1", "G2", "A"}, b \in {"G1", "G2", "Cn"}})
+                \o SetToSeq({Slider(<<"L", "A", "P", a, b, c>>) : a \in {"O", "A"}, b \in {"G1", "G2", "O"}, c \in {"G1", "G2", "O", "Cn"}})
+\* narrow and deep: every token string up to n tokens over few tokens (later segments with duplicates, letters in a row ...)
+AlphaPDeep(n) == SetToSeq({Slider(p) : p \in TokSeqs(IF n <= 7 THEN {"B", "C", "A", "Cn"} ELSE {"B", "C", "P", "O", "A", "Cn"}, IF n <= 7 THEN n ELSE n - 1) \ {<<>>}})
+
 \* (f) C06: failing multi-segment paths followed by good sliders
 FailingPaths(n) == {p \in TokSeqs(PathToks \ {"C", "Bc"}, n) : p # <<>> /\ ~DecPath(p).ok /\ DecPathFull(p).partial # <<>>}
 GoodPaths(z) == {<<"L", "A">>, <<"B", "A", "Cn">>, <<"P", "A", "Cn">>, <<"B", "A", "B", "Cn">>, <<"C">>}
@@ -237,6 +243,8 @@ Alpha == CASE AlphaName = "typesquick" -> AlphaTypesQuick(0)
            [] AlphaName = "pathr"      -> AlphaPathR(AlphaN)
            [] AlphaName = "residue"    -> AlphaResidue(AlphaN)
            [] AlphaName = "pseg"       -> AlphaPSeg(0)
+           [] AlphaName = "pbig"       -> AlphaPBig(0)
+           [] AlphaName = "pdeep"      -> AlphaPDeep(AlphaN)
            [] AlphaName = "residuesmall" -> AlphaResidueSmall(AlphaN)
 
 ASSUME Emit => PrintT("ALPHA " \o ToJson(Alpha))
